@@ -119,6 +119,144 @@ c10_h!(c10_prune_int_float_column, {
     std::mem::forget(p);
 });
 
+/// history on one column: set(n1,a); set(n2,b); then the update WHAT: 0 overwrite n1 with c, 1 remove n1, 2 remove n1 + rebuild,
+/// 3 overwrite n1 + rebuild, 4 remove n1 then set n1 = c (a write on a column whose summary is stale); afterwards pruning (six operators) must stay sound for the LIVE values
+fn prune_sound_after_update(p: &ExpressionPredicate, kind: u8, what: u8, nan_free: bool) -> bool {
+    let st: PropertyStorage<NodeId> = PropertyStorage::new();
+    let key = PropertyKey::new("k");
+    let (a, b, c, lit) = (operand(kind), operand(kind), operand(kind), operand(kind));
+    if nan_free {
+        if let Value::Float64(f) = &a { kani::assume(!f.is_nan()); }
+        if let Value::Float64(f) = &b { kani::assume(!f.is_nan()); }
+        if let Value::Float64(f) = &c { kani::assume(!f.is_nan()); }
+        if let Value::Float64(f) = &lit { kani::assume(!f.is_nan()); }
+    }
+    st.set(NodeId::new(1), key.clone(), clone_scalar(&a));
+    st.set(NodeId::new(2), key.clone(), clone_scalar(&b));
+    // live value on n1 afterwards (None = removed); n2 keeps b
+    let live1: Option<&Value> = if what == 0 || what == 3 { st.set(NodeId::new(1), key.clone(), clone_scalar(&c)); Some(&c) }
+        else if what == 4 { let r = st.remove(NodeId::new(1), &key); std::mem::forget(r); st.set(NodeId::new(1), key.clone(), clone_scalar(&c)); Some(&c) }
+        else { let r = st.remove(NodeId::new(1), &key); std::mem::forget(r); None };
+    if what == 2 || what == 3 { st.rebuild_zone_maps(); }
+    let mut any_match = false;
+    macro_rules! one { ($cop:expr, $fop:expr) => {{
+        let matches = filter_true(p, &b, $fop, &lit) || match live1 { Some(v) => filter_true(p, v, $fop, &lit), None => false };
+        let may = st.might_match(&key, $cop, &lit);
+        if matches { any_match = true; assert!(may, "pruning says 'no match' although the filter matches a live value"); }
+    }}; }
+    one!(CompareOp::Eq, BinaryFilterOp::Eq); one!(CompareOp::Ne, BinaryFilterOp::Ne);
+    one!(CompareOp::Lt, BinaryFilterOp::Lt); one!(CompareOp::Le, BinaryFilterOp::Le);
+    one!(CompareOp::Gt, BinaryFilterOp::Gt); one!(CompareOp::Ge, BinaryFilterOp::Ge);
+    std::mem::forget((st, key, a, b, c, lit));
+    any_match
+}
+
+/// range form on a two-value column: lit <(=) v <(=) lit2, also with either bound absent
+fn prune_range_sound(p: &ExpressionPredicate, kind: u8, nan_free: bool) -> bool {
+    let st: PropertyStorage<NodeId> = PropertyStorage::new();
+    let key = PropertyKey::new("k");
+    let (a, b, lit, lit2) = (operand(kind), operand(kind), operand(kind), operand(kind));
+    if nan_free {
+        if let Value::Float64(f) = &a { kani::assume(!f.is_nan()); }
+        if let Value::Float64(f) = &b { kani::assume(!f.is_nan()); }
+        if let Value::Float64(f) = &lit { kani::assume(!f.is_nan()); }
+        if let Value::Float64(f) = &lit2 { kani::assume(!f.is_nan()); }
+    }
+    st.set(NodeId::new(1), key.clone(), clone_scalar(&a));
+    st.set(NodeId::new(2), key.clone(), clone_scalar(&b));
+    let (li, ui): (bool, bool) = (kani::any(), kani::any());
+    let (lo_op, hi_op) = (if li { BinaryFilterOp::Ge } else { BinaryFilterOp::Gt }, if ui { BinaryFilterOp::Le } else { BinaryFilterOp::Lt });
+    let (a_lo, a_hi, b_lo, b_hi) = (filter_true(p, &a, lo_op, &lit), filter_true(p, &a, hi_op, &lit2), filter_true(p, &b, lo_op, &lit), filter_true(p, &b, hi_op, &lit2));
+    let both = (a_lo && a_hi) || (b_lo && b_hi);
+    if both { assert!(st.might_match_range(&key, Some(&lit), Some(&lit2), li, ui), "range pruning says 'no match' although a stored value lies in the range"); }
+    if a_lo || b_lo { assert!(st.might_match_range(&key, Some(&lit), None, li, ui), "lower-bound pruning says 'no match' although a stored value satisfies the bound"); }
+    if a_hi || b_hi { assert!(st.might_match_range(&key, None, Some(&lit2), li, ui), "upper-bound pruning says 'no match' although a stored value satisfies the bound"); }
+    assert!(st.might_match_range(&key, None, None, li, ui), "unbounded range pruned");
+    std::mem::forget((st, key, a, b, lit, lit2));
+    both
+}
+
+macro_rules! c10_update_h { ($name:ident, $kind:expr, $what:expr, $nanfree:expr) => {
+    c10_h!($name, { let p = pred(); let m = prune_sound_after_update(&p, $kind, $what, $nanfree); kani::cover!(m); std::mem::forget(p); });
+}; }
+
+//@ property: C10
+//@ tier: quick
+//@ cap_s: 900
+//@ mem_gb: 12
+//@ stubs: parking_lot slow paths, alloc::fmt::format, RandomState::new, regex::Regex::new
+//@ encodes: PropertyStorage::{set,might_match}, PropertyColumn::{set,update_zone_map_on_insert,might_match}, ZoneMapEntry::might_contain_*
+//@ symbolic: three Int64 values and an Int64 literal (all i64); history set(n1,a); set(n2,b); set(n1,c) (overwrite)
+//@ bound: one property column, two nodes, one overwrite after two inserts
+//@ oracle: after the overwrite, a comparison the filter evaluates to true on a live value (b or c) is never pruned
+c10_update_h!(c10_prune_after_overwrite_int, 2, 0, false);
+
+//@ property: C10
+//@ tier: quick
+//@ cap_s: 900
+//@ mem_gb: 12
+//@ stubs: parking_lot slow paths, alloc::fmt::format, RandomState::new, regex::Regex::new
+//@ encodes: PropertyStorage::{set,remove,might_match}, PropertyColumn::{set,remove,might_match} (stale-summary path)
+//@ symbolic: two Int64 values and an Int64 literal; history set(n1,a); set(n2,b); remove(n1)
+//@ bound: one property column, two nodes, one removal
+//@ oracle: after the removal (summary stale), a comparison true on the remaining value is never pruned
+c10_update_h!(c10_prune_after_remove_int, 2, 1, false);
+
+//@ property: C10
+//@ tier: quick
+//@ cap_s: 900
+//@ mem_gb: 12
+//@ stubs: parking_lot slow paths, alloc::fmt::format, RandomState::new, regex::Regex::new
+//@ encodes: PropertyStorage::{set,remove,rebuild_zone_maps,might_match}, PropertyColumn::{rebuild_zone_map,might_match}, ZoneMapEntry::might_contain_*
+//@ symbolic: two Int64 values and an Int64 literal; history set(n1,a); set(n2,b); remove(n1); rebuild_zone_maps()
+//@ bound: one property column, two nodes, one removal, one rebuild
+//@ oracle: after removal and rebuild, a comparison true on the remaining value is never pruned
+c10_update_h!(c10_prune_after_remove_rebuild_int, 2, 2, false);
+
+//@ property: C10
+//@ tier: quick
+//@ cap_s: 900
+//@ mem_gb: 12
+//@ stubs: parking_lot slow paths, alloc::fmt::format, RandomState::new, regex::Regex::new
+//@ encodes: PropertyStorage::{set,remove,might_match}, PropertyColumn::{set,remove,update_zone_map_on_insert,might_match} (a write on a column whose summary is stale)
+//@ symbolic: three Int64 values and an Int64 literal; history set(n1,a); set(n2,b); remove(n1); set(n1,c)
+//@ bound: one property column, two nodes, one removal followed by one insert
+//@ oracle: after removal and re-insert, a comparison true on a live value (b or c) is never pruned
+c10_update_h!(c10_prune_after_remove_then_insert_int, 2, 4, false);
+
+//@ property: C10
+//@ tier: quick
+//@ cap_s: 900
+//@ mem_gb: 12
+//@ stubs: parking_lot slow paths, alloc::fmt::format, RandomState::new, regex::Regex::new
+//@ encodes: PropertyStorage::{set,rebuild_zone_maps,might_match}, PropertyColumn::{set,rebuild_zone_map,might_match}
+//@ symbolic: three Float64 values and a Float64 literal (all non-NaN doubles); history set(n1,a); set(n2,b); set(n1,c); rebuild_zone_maps()
+//@ bound: one property column, two nodes, one overwrite, one rebuild
+//@ oracle: after overwrite and rebuild, a comparison true on a live value is never pruned (float equality is |a-b| < EPSILON)
+c10_update_h!(c10_prune_after_overwrite_rebuild_float, 3, 3, true);
+
+//@ property: C10
+//@ tier: quick
+//@ cap_s: 900
+//@ mem_gb: 12
+//@ stubs: parking_lot slow paths, alloc::fmt::format, RandomState::new, regex::Regex::new
+//@ encodes: PropertyStorage::might_match_range, ZoneMapEntry::{might_contain_range,might_contain_less_than,might_contain_greater_than}
+//@ symbolic: two stored Int64 values, two Int64 bounds (all i64), inclusiveness of each bound
+//@ bound: one property column, two nodes; two-sided, lower-only, upper-only and unbounded ranges
+//@ oracle: a range (as the filter evaluates the two comparisons) that holds for a stored value is never pruned
+c10_h!(c10_prune_range_int, { let p = pred(); let m = prune_range_sound(&p, 2, false); kani::cover!(m); std::mem::forget(p); });
+
+//@ property: C10
+//@ tier: quick
+//@ cap_s: 900
+//@ mem_gb: 12
+//@ stubs: parking_lot slow paths, alloc::fmt::format, RandomState::new, regex::Regex::new
+//@ encodes: as c10_prune_range_int
+//@ symbolic: two stored Float64 values, two Float64 bounds (all non-NaN doubles), inclusiveness of each bound
+//@ bound: one property column, two nodes
+//@ oracle: as c10_prune_range_int
+c10_h!(c10_prune_range_float, { let p = pred(); let m = prune_range_sound(&p, 3, true); kani::cover!(m); std::mem::forget(p); });
+
 //@ property: C10
 //@ tier: quick
 //@ cap_s: 600
